@@ -188,7 +188,8 @@ def run(ctx, res):
     hang_ix = [i for i, a in enumerate(m1) if a == "HANG"]
     run_ix = [i for i, a in enumerate(m1) if a != "HANG"]
     p1b = C.write_cases("c10_l1_run.txt", [lines[i] for i in run_ix])
-    i1 = dict(zip(run_ix, C.run_impl(ctx.bins["c10"], p1b, len(run_ix), timeout=600)))
+    # a short per-case watchdog: should the loop ever come back, thousands of words would hang
+    i1 = dict(zip(run_ix, C.run_impl(ctx.bins["c10"], p1b, len(run_ix), timeout=900, env={"HX_CASE_TIMEOUT_MS": "700"})))
     # inputs on which the model diverges: a sample goes to the implementation, whose per-case watchdog
     # (hx::main_loop) answers HANG after HX_CASE_TIMEOUT_MS and C.run_impl restarts the shard
     nprobe = 320 if ctx.thorough else 48
